@@ -566,11 +566,22 @@ func genCase(t *rapid.T, mode string) m19.Case {
 			kinds = append(kinds, i)
 		}
 	}
+	if mode == "unicode" {
+		// syntax errors are one kind among fifteen: give them a quarter of this facet
+		for i, k := range m19.RaiseKinds {
+			if k.Kind == "syntax" {
+				kinds = append(kinds, i, i, i, i)
+			}
+		}
+	}
 	rk := m19.RaiseKinds[rapid.SampledFrom(kinds).Draw(t, "raise")]
 	c.Raise = m19.Raise{Kind: rk.Kind, Var: rapid.IntRange(0, rk.N-1).Draw(t, "variant"),
 		Wrap:  rapid.SampledFrom(m19.Wraps).Draw(t, "rwrap"),
 		Stmt:  rapid.SampledFrom(m19.StmtForms).Draw(t, "rstmt"),
 		Noise: genNoise(t, "rnoise")}
+	if rk.Kind == "syntax" && rapid.IntRange(0, 2).Draw(t, "truncation") == 0 {
+		c.Raise.Var = rapid.IntRange(19, rk.N-1).Draw(t, "eof-variant") // errors reported at end of input
+	}
 	nonError := rk.Kind == "throw-prim" || rk.Kind == "throw-object"
 	for i := 0; i < n; i++ {
 		l := m19.Link{Kind: rapid.SampledFrom(pool).Draw(t, "kind"), Var: rapid.IntRange(0, 11).Draw(t, "lvar"),
@@ -594,6 +605,9 @@ func genCase(t *rapid.T, mode string) m19.Case {
 	c.Limit = rapid.SampledFrom(limits).Draw(t, "limit")
 	c.File = rapid.SampledFrom(fileNames).Draw(t, "file")
 	c.Route = rapid.SampledFrom([]string{"compile", "compile", "run-string", "program"}).Draw(t, "route")
+	if mode == "syntax" {
+		c.NonASCII = rapid.IntRange(0, 2).Draw(t, "nonascii") == 0 // LF only, but a third with non-ASCII comments/strings
+	}
 	if mode == "unicode" {
 		c.LT = rapid.SampledFrom([]string{"\n", "\r\n", "\r", "\u2028", "\u2029", "mix", "mix"}).Draw(t, "lt")
 		c.NonASCII = rapid.IntRange(0, 3).Draw(t, "nonascii") != 0
@@ -613,7 +627,7 @@ var traceFacet = harness.Register(&harness.Facet[m19.Case]{
 
 var syntaxFacet = harness.Register(&harness.Facet[m19.Case]{
 	Name:  "syntax",
-	Rule:  ruleCommon + "This facet: the construct is one of 28 injected syntax errors (unterminated string/regexp, unexpected token, juxtaposed tokens, illegal character, illegal break/continue/return, bad regexp, and nine truncations reported at end of input: unclosed block/paren/array/call/object/function/comment, trailing operator, optionally followed by a comment on the last line); half of the cases put it into eval code (SyntaxError with trace, message carries the position), otherwise the program itself fails: parser.ErrorList[0].Position, the error text, and eval of the same text must name the offending token's line and column. non-trivial for parse errors = token not in line 1 / column 1.",
+	Rule:  ruleCommon + "This facet: the construct is one of 28 injected syntax errors (unterminated string/regexp, unexpected token, juxtaposed tokens, illegal character, illegal break/continue/return, bad regexp, and nine truncations reported at end of input: unclosed block/paren/array/call/object/function/comment, trailing operator, optionally followed by a comment on the last line); half of the cases put it into eval code (SyntaxError with trace, message carries the position), a third of the cases carry non-ASCII comments and strings; otherwise the program itself fails: parser.ErrorList[0].Position, the error text, and eval of the same text must name the offending token's line and column. non-trivial for parse errors = token not in line 1 / column 1.",
 	Quick: 700, Thorough: 10000,
 	Gen:   func(t *rapid.T) m19.Case { return genCase(t, "syntax") },
 	Check: checkCase,
